@@ -228,6 +228,14 @@ class DataGen(object):
         self.add(P(*show))
         if r.random() < 0.5:
             self.add(("let", ("var", "V$"), ("bin", "+", ("fn", "LEFT$", [W, n(2)]), ("fn", "RIGHT$", [W, n(1)])), False), P(self.tag(), ";", ("var", "V$")))
+        if r.random() < 0.5:
+            # two (three) numeric string functions in ONE statement: each needs a result of its own
+            a, b = r.choice(["12", "2.5", "7"]), r.choice(["30", "0.25", "100"])
+            self.add(("let", ("var", "V1"), ("bin", "+", ("fn", "VAL", [("str", a)]), ("fn", "VAL", [("str", b)])), False),
+                     ("let", ("var", "V2"), ("bin", "-", ("bin", "*", ("fn", "INSTR", [n(1), ("bin", "+", W, ("str", "XAB")), ("str", "AB")]), n(100)),
+                                              ("fn", "INSTR", [n(1), ("bin", "+", W, ("str", "XAB")), ("str", "B")])), False),
+                     ("let", ("var", "V3"), ("bin", "+", ("bin", "+", ("fn", "VAL", [("str", a)]), ("fn", "LEN", [W])), ("fn", "INSTR", [n(1), ("str", "HELLO"), ("str", "L")])), False),
+                     P(self.tag(), ";", ("var", "V1"), ";", ("var", "V2"), ";", ("var", "V3")))
 
     def block_capacity(self):
         """A non-default string size must hold for every kind of string variable: scalars, DIMmed and implicit array
